@@ -406,3 +406,39 @@ def full_font(rng):
            "info": {"unitsPerEm": 1000, "ascender": 800, "descender": -200, "familyName": "LayoutTest", "styleName": "Regular"},
            "kerning": kerning, "kernScale": 4, "fea": fea, "lib": {"public.skipExportGlyphs": skip} if skip else {}}
     return {"ufo": ufo, "declared": decl}
+
+
+def mark_conflict_font(rng):
+    """Marks that belong to two mark classes each, chained (c1-c2, c2-c3, c3-c4 ...): the grouping of mark classes into
+    lookups (groupMarkClasses) is a graph colouring whose result depends on the vertex order."""
+    n = rng.choice([4, 5, 6])
+    classes = rng.sample(["top", "bottom", "ogonek", "center", "topright", "bottomleft", "ring", "horn"], n)
+    gl = [("a", 0x61), ("e", 0x65), ("o", 0x6F)]
+    glyphs = {}
+    for nm, cp in gl:
+        glyphs[nm] = {"cs": [box()], "comps": [], "w": 500 * PS, "h": 0, "u": [cp],
+                      "anchors": [{"n": c, "x": q4(rng, 0, 500) * PS // 4, "y": q4(rng, -100, 800) * PS // 4} for c in classes if rng.random() < 0.9]}
+    marks = []
+    # one or two marks in two classes each (a conflict edge); the remaining classes get single-class marks (isolated vertices,
+    # which the greedy colouring puts next to whichever end of the edge it visits first)
+    links = [(classes[0], classes[1])]
+    if rng.random() < 0.4:
+        links.append((classes[2], classes[3]))
+    for k, c in enumerate(classes):
+        if rng.random() < 0.8:
+            nm = f"single{k}comb"
+            marks.append(nm)
+            glyphs[nm] = {"cs": [box(-80, 500, 60, 60)], "comps": [], "w": 0, "h": 0, "u": [0x310 + k],
+                          "anchors": [{"n": "_" + c, "x": q4(rng, -100, 100) * PS // 4, "y": q4(rng, 300, 600) * PS // 4}]}
+    for k, (a, b) in enumerate(links):
+        nm = f"mark{k}comb"
+        marks.append(nm)
+        glyphs[nm] = {"cs": [box(-80, 500, 60, 60)], "comps": [], "w": 0, "h": 0, "u": [0x300 + k],
+                      "anchors": [{"n": "_" + a, "x": q4(rng, -100, 100) * PS // 4, "y": q4(rng, 300, 600) * PS // 4},
+                                  {"n": "_" + b, "x": q4(rng, -100, 100) * PS // 4, "y": q4(rng, 300, 600) * PS // 4}]}
+    names = list(glyphs)
+    rng.shuffle(names)
+    ufo = {"glyphs": glyphs, "order": names, "glyphNames": names,
+           "info": {"unitsPerEm": 1000, "ascender": 800, "descender": -200, "familyName": "MarkConflict", "styleName": "Regular"},
+           "fea": "", "lib": {"public.openTypeCategories": {m: "mark" for m in marks}} if rng.random() < 0.5 else {}}
+    return {"ufo": ufo, "q": 1, "hasCats": False, "markOpts": {"groupMarkClasses": True}}
